@@ -15,6 +15,11 @@ with the facts regenerated from the source (`Generated.C08.headerRet` = what `re
   Decrypt / take-scribble-put) runs to its end, the pool handing out the most recently put buffer;
   then A finishes.  Answer: `a=same|differs b=same|differs access=ok|violated steps=<n>`
   (`same` = the log equals `soloLog`; `access` = was every array touched owned by the toucher).
+* `open docs=<hex>,… chunks=<k>.<k>.… order=<i>.<i>.… [variant=suralias]` — every document a Decrypt
+  stream (reads of at most `k` bytes, `0` = one Read delivers all); ALL are opened (each runs up to
+  the return of `Decrypt`), the pool handing out the buffer Put last; then the goroutines are run
+  to their end in `order` (`openAllThenDrain`).  Answer: `streams=<same|differs>,… finished=<0|1>`
+  (`same` = the stream's log, the read of the pushed-back bytes included, equals its `soloLog`).
 * `bsp mincap=<m> ops=g<cap>,r<size>,f<byte>,…` — ByteSlicePool Get/Resize/fill on one acquisition.
 * `reg ops=n0,n1,s,n0,…` — the logger-registry specification run sequentially.
 * `interleave seed=<n> docs=<hex>,<hex>,… [variant=…]` — a pseudo-random schedule with
@@ -31,6 +36,12 @@ def retOf (l : Kit.Line) : HeaderRet :=
   | some "prefix" => retPreFix
   | some "fixed" => retFixed
   | _ => Kit.Generated.C08.headerRet
+
+/-- what the pushed-back reader keeps: the regenerated fact, or the self-test variant -/
+def surOf (l : Kit.Line) : RetKind :=
+  match l.get? "variant" with
+  | some "suralias" => .alias
+  | _ => Kit.Generated.C08.surplusRet
 
 def b2s (b : Bool) : String := if b then "1" else "0"
 
@@ -83,8 +94,10 @@ def runToEnd (s : State) (ok : Bool) (t : Nat) : Nat → State × Bool × Nat
     | some (s', ok') => let r := runToEnd s' ok' t fuel; (r.1, r.2.1, r.2.2 + 1)
     | none => (s, ok, 0)
 
-def decryptOf (ret : HeaderRet) (hb : Nat) (doc : List Byte) : List Instr :=
-  decryptProg ret segmentSize hb [doc.take segmentSize] (bodyOf 0 doc)
+/-- Decrypt thread (the goroutine's read of the pushed-back bytes included, `sur` = what that
+reader keeps) -/
+def decryptOf (sur : RetKind) (ret : HeaderRet) (hb : Nat) (doc : List Byte) : List Instr :=
+  decryptProgS sur ret segmentSize hb [doc.take segmentSize] (bodyOf 0 doc)
 
 def sameStr (b : Bool) : String := if b then "same" else "differs"
 
@@ -92,12 +105,13 @@ def doForced (l : Kit.Line) : String :=
   match l.get? "mode", l.hex? "a", l.hex? "b" with
   | some mode, some a, some b =>
     let ret := retOf l
+    let sur := surOf l
     let a := toBytes a
     let b := toBytes b
-    let pa := decryptOf ret 0 a
+    let pa := decryptOf sur ret 0 a
     let pb : List Instr :=
-      if mode == "nest" then encryptProg 0 (bodyOf 0 b) ++ decryptOf ret 1 b
-      else if mode == "nestdec" then decryptOf ret 0 b
+      if mode == "nest" then encryptProg 0 (bodyOf 0 b) ++ decryptOf sur ret 1 b
+      else if mode == "nestdec" then decryptOf sur ret 0 b
       else [.get, .write 0 0 (List.replicate 64 170), .put 0]
     let s0 := init fun t => if t = 0 then pa else if t = 1 then pb else []
     let r1 := runToYield s0 true 0 (pa.length + 1)
@@ -137,7 +151,7 @@ def doInterleave (l : Kit.Line) : String :=
     match (ds.splitOn ",").mapM Kit.fromHex with
     | some docs =>
       let ret := retOf l
-      let progs := docs.map fun d => decryptOf ret 0 (toBytes d)
+      let progs := docs.map fun d => decryptOf (surOf l) ret 0 (toBytes d)
       let n := progs.length
       if n = 0 then "bad-request" else
       let s0 := init fun t => progs.getD t []
@@ -148,6 +162,25 @@ def doInterleave (l : Kit.Line) : String :=
       s!"a={sameStr all} b=same access={if r.2.1 then "ok" else "violated"} steps={r.2.2}"
     | none => "bad-request"
   | _, _ => "bad-request"
+
+def natsOf (s : String) : Option (List Nat) :=
+  if s == "" then some [] else (s.splitOn ".").mapM (·.toNat?)
+
+def doOpen (l : Kit.Line) : String :=
+  match l.get? "docs", (l.get? "chunks").bind natsOf, (l.get? "order").bind natsOf with
+  | some ds, some chunks, some order =>
+    match (ds.splitOn ",").mapM Kit.fromHex with
+    | some docs =>
+      let ret := retOf l
+      let sur := surOf l
+      let specs : List (Nat × List Byte) := (List.range docs.length).map fun i => (chunks.getD i 0, toBytes (docs.getD i []))
+      let s := openAllThenDrain sur ret specs order
+      let per := (List.range specs.length).map fun t =>
+        sameStr ((s.thr t).log == soloLog (openProgs sur ret specs t))
+      let fin := (List.range specs.length).all fun t => (s.thr t).prog.isEmpty
+      s!"streams={",".intercalate per} finished={b2s fin}"
+    | none => "bad-request"
+  | _, _, _ => "bad-request"
 
 /-- `reg ops=<n|s>,…` — the registry specification run sequentially from the empty registry:
 `n<k>` = NewLogger(name k) answers the logger's identity, `s` = snapshot answers the names -/
@@ -200,9 +233,10 @@ def answer (line : String) : String :=
   | "rh" => doRH l
   | "forced" => doForced l
   | "interleave" => doInterleave l
+  | "open" => doOpen l
   | "reg" => doReg l
   | "bsp" => doBsp l
-  | "facts" => s!"headerRet={repr Kit.Generated.C08.headerRet}"
+  | "facts" => s!"headerRet={repr Kit.Generated.C08.headerRet} surplusRet={repr Kit.Generated.C08.surplusRet}"
   | _ => "bad-request"
 
 def main (_args : List String) : IO UInt32 := do
